@@ -144,6 +144,7 @@ package parser
 //@ at call append #1 before assert rawVerbatim: inRaw && !inComment && arg1[0] == tok.Source && rawTag != nil && box(rawTag, *parser.ASTRaw) == opened
 //@ at call append #4: opened = arg1[0]
 //@ loop 1 invariant depth: (bn == nil) == (len(stack) == 0) && (sd == nil) == (len(stack) == 0)
+//@ loop 1 invariant frames: forall(k, 0, len(stack), (stack[k].node == nil) == (k == 0) && (stack[k].syntax == nil) == (k == 0))
 //@ loop 1 invariant rawOpen: inRaw ==> rawTag != nil && box(rawTag, *parser.ASTRaw) == opened
 //@ loop 1 invariant modes: !(inComment && inRaw)
 //@ ensures acceptsIffClosed: (result1 == nil) ==> len(stack) == 0 && !inComment && !inRaw && result0 != nil
